@@ -694,6 +694,9 @@ func ConcWorker(root string, job ConcJob, refs []string, keyPath func() string) 
 				break
 			}
 		}
+		if i >= job.Iterations {
+			time.Sleep(300 * time.Microsecond) // keep observing without burning a core per reader
+		}
 		fr := job.Payloads[0].Fresh()
 		hit, pan := SafeLoad(bc, fr, job.ImportPath, bt)
 		out.Loads++
